@@ -13,6 +13,8 @@ let n_of_int i : n = if i = 0 then N0 else Npos (pos_of_za (ZA.of_int i))
 let int_of_n (x : n) : int = match x with N0 -> 0 | Npos p -> ZA.to_int (za_of_pos p)
 let zs s = z_of_string s
 let ios = int_of_string
+(* model of the code as found before the repair 314e4a7 (index map keyed by child number only): argv "unfixed" *)
+let fx = not (Array.length Sys.argv > 1 && Sys.argv.(1) = "unfixed")
 
 let cls_of code param : oclass =
   match code with
@@ -142,8 +144,8 @@ let () =
         let stk = cls = "1" in
         let n = wi.st.w_ks.ks_next_e in
         let used = oracle_of sf !node in
-        let r = if api = "1" then api_create_address sf (n_of_int !gap) (n_of_int !maxun) used stk wi.st
-                else new_address sf (n_of_int !gap) used stk wi.st in
+        let r = if api = "1" then api_create_address sf fx (n_of_int !gap) (n_of_int !maxun) used stk wi.st
+                else new_address sf fx (n_of_int !gap) used stk wi.st in
         let sh_n = int_of_n (sf false n) in
         let model = match r with
           | KOk ((c, i), st') ->
@@ -213,8 +215,13 @@ let () =
     | ["BAL"; w; total] ->
         incr k;
         let wi = w_of w in
-        let own sh = if List.mem (int_of_n sh) wi.impl_keys then Some (n_of_int (ios w)) else None in
-        Printf.printf "BAL\t%s\t%d\t%s\t%s\t%s\n" !hist !k w total (string_of_z (balance_of_chain own !node (n_of_int (ios w))))
+        let wn = n_of_int (ios w) in
+        let own sh = if List.mem (int_of_n sh) wi.impl_keys then Some wn else None in
+        (* without the addresses that were already paid when this wallet issued them (possible only
+           after a restore that missed them): the wallet cannot know those earlier payments *)
+        let own_np sh = if List.mem (int_of_n sh) wi.impl_keys && not (Hashtbl.mem wi.prepaid (int_of_n sh)) then Some wn else None in
+        Printf.printf "BAL\t%s\t%d\t%s\t%s\t%s\t%s\t%d\n" !hist !k w total (string_of_z (balance_of_chain own !node wn))
+          (string_of_z (balance_of_chain own_np !node wn)) (Hashtbl.length wi.prepaid)
     | "L" :: w :: filter :: rest ->
         incr k;
         let wi = w_of w in
